@@ -627,6 +627,8 @@ func runCLI(c *core.Ctx, cfg *config, r request) result {
 		}
 		if r.Kind == "cliweighted" {
 			args = append(args, "--weighted")
+		} else if r.has('r') {
+			args = append(args, "--rf")
 		}
 	case "clifbp":
 		args = []string{"compute", "support", "fbp", "-i", reff, "-b", itf, "-t", th, "-l", logf, "--silent"}
@@ -679,7 +681,12 @@ func runCLI(c *core.Ctx, cfg *config, r request) result {
 			if len(ls) > 0 && strings.HasPrefix(ls[0], "tree\t") {
 				ls = ls[1:]
 			}
+			// --rf prints one distance per line, without identifier, in the order of the compared trees
+			rfOnly := r.Kind == "clicompare" && r.has('r') && !r.has('b')
 			sort.SliceStable(ls, func(i, j int) bool {
+				if rfOnly {
+					return false
+				}
 				a, _ := strconv.Atoi(strings.SplitN(ls[i], "\t", 2)[0])
 				b, _ := strconv.Atoi(strings.SplitN(ls[j], "\t", 2)[0])
 				return a < b
@@ -801,6 +808,10 @@ func replay(c *core.Ctx, cfg *config, lines []string) {
 	var reqs []request
 	needRace, needCLI := false, false
 	for _, l := range lines {
+		if strings.HasPrefix(l, "C11.table") {
+			tableCase(c) // replaying a broken table: extract it again from the repository under test
+			continue
+		}
 		r, err := parseRequest(l)
 		if err != nil {
 			continue
@@ -998,14 +1009,18 @@ func generate(c *core.Ctx, cfg *config) {
 		if kind == "fbp" && g.Chance(0.15) {
 			flags += "c"
 		}
+		cliFlags := ""
+		if kind == "compare" && !strings.Contains(flags, "b") && g.Chance(0.7) {
+			cliFlags = "r" // gotree compare trees --rf
+		}
 		threads := []int{1, 2, 4, 16, n + 3}
 		add := func(its []string) {
 			for _, th := range threads {
 				reqs = append(reqs, request{Kind: kind, Threads: th, Flags: flags, Ref: refN.Dump(), Items: its})
 			}
 			if cliToo {
-				for _, th := range []int{1, 4} {
-					reqs = append(reqs, request{Kind: "cli" + kind, Threads: th, Flags: strings.ReplaceAll(flags, "c", ""), Ref: refN.Dump(), Items: its})
+				for _, th := range []int{1, 4, 16} {
+					reqs = append(reqs, request{Kind: "cli" + kind, Threads: th, Flags: strings.ReplaceAll(flags, "c", "") + cliFlags, Ref: refN.Dump(), Items: its})
 				}
 			}
 		}
